@@ -215,7 +215,7 @@ func init() {
 		// string table: data values, echoed error messages and list members, every indent mode (in c07Envelope)
 		sr := &c07StrRoot{}
 		sroot := ggql.NewRoot(sr)
-		if err := sroot.ParseString("type Query { s: String  l: [String]  fail: String }"); err != nil {
+		if err := sroot.ParseString("type Query { s(a: Int): String  l: [String]  fail: String }"); err != nil {
 			panic(err)
 		}
 		for _, str := range c07Strings() {
@@ -315,6 +315,30 @@ func init() {
 					o.Count("var-def")
 					o.Emit(Case{Term: N("c07op", A("vardef"), S(doc), I(int64(len(pre))), I(int64(len(name)))), Obs: obs,
 						Meta: map[string]interface{}{"doc": doc}, Nontrivial: true})
+				}
+			}
+		}
+		// an argument that is not declared, or given twice: the error is located at the argument's name (D82)
+		for _, pre := range []string{"{ s(", "{ s(\n", "{ s( # c\n  ", "{ s(a: 1, ", "{ s(a: 1\n"} {
+			for _, name := range []string{"z", "zz", "longname", "a"} {
+				for _, post := range []string{": 1", " : 1", "\n: 1", "\n\n  : 1", "\r\n: 1", "#c\n: 1", "\t: 1", ",: 1"} {
+					if name == "a" && !strings.Contains(pre, "a: 1") {
+						continue
+					}
+					doc := pre + name + post + ") }"
+					msg := "is not an argument to"
+					if name == "a" {
+						msg = "duplicate argument"
+					}
+					obs := locOf(safeResolve(sroot, doc, "", nil), msg)
+					if obs.Tag == "noloc" {
+						o.Count("arg-name-error-not-reached")
+						continue
+					}
+					o.Count("arg-name")
+					o.Emit(Case{Term: N("c07op", A("argname"), S(doc), I(int64(len(pre))), I(int64(len(name)))), Obs: obs,
+						Meta: map[string]interface{}{"doc": doc}, Nontrivial: true})
+					c07Envelope(o, sroot, doc, "", nil, "arg-name")
 				}
 			}
 		}
